@@ -18,11 +18,12 @@ import (
 // C07: scalar encodings are canonical 32-byte big-endian; decoders accept exactly 32 bytes < n.
 
 type caseC07dec struct {
-	Data  string `json:"data"`            // hex of the byte string presented
-	Via   string `json:"via"`             // decode | unmarshal | hex
-	Text  string `json:"text,omitempty"`  // for via=hex: the literal string (may be malformed hex)
-	Prior SV     `json:"prior"`           // receiver before the call
-	Nil   bool   `json:"nilin,omitempty"` // pass a nil slice instead of an empty one
+	Data  string     `json:"data"`            // hex of the byte string presented
+	Via   string     `json:"via"`             // decode | unmarshal | hex
+	Text  string     `json:"text,omitempty"`  // for via=hex: the literal string (may be malformed hex)
+	Prior SV         `json:"prior"`           // receiver before the call
+	Nil   bool       `json:"nilin,omitempty"` // pass a nil slice instead of an empty one
+	Lay   gen.Layout `json:"layout"`          // where the input sits in its backing array (offset / alignment, spare capacity)
 }
 
 func genScalarBytes(t *rapid.T) []byte {
@@ -169,6 +170,8 @@ var c07dec = gen.Register(&gen.Check[caseC07dec]{
 		}
 		if len(data) == 0 {
 			c.Nil = rapid.Bool().Draw(t, "nil")
+		} else if gen.Chance(t, "interior", 1, 3) {
+			c.Lay = gen.Layout{Pre: rapid.IntRange(1, 15).Draw(t, "pre"), Post: rapid.SampledFrom([]int{0, 1, 7, 64}).Draw(t, "post")}
 		}
 		return c
 	},
@@ -195,7 +198,7 @@ var c07dec = gen.Register(&gen.Check[caseC07dec]{
 		}
 		return out
 	},
-	Required: []string{"accepted", "reject:empty", "reject:length", "reject:range", "reject:hex", "near-n"},
+	Required: []string{"accepted", "reject:empty", "reject:length", "reject:range", "reject:hex", "near-n", "input-interior"},
 	Run: func(c caseC07dec, o *gen.Obs) error {
 		// every case is evaluated twice in a row: the verdict on an input must not depend on the input having been
 		// presented just before (decoders that remember their last input)
@@ -281,6 +284,10 @@ func TestC07Encode(t *testing.T) { c07enc.Execute(t) }
 func c07decOnce(c caseC07dec, o *gen.Obs) error {
 	hostileCaller()
 	data := gen.HexBytes(c.Data)
+	if c.Lay.Pre > 0 || c.Lay.Post > 0 {
+		data, _ = gen.Place(data, c.Lay) // a sub-slice of a larger buffer: any alignment, spare capacity behind it
+		o.Class("input-interior")
+	}
 	if c.Nil {
 		data = nil
 	}
